@@ -151,10 +151,14 @@ def judgeScore (ver : String) (c : List Nat) (impl : String) : Option String × 
   -- not depend on it; the generated model is lazy there. Only non-panicking results are compared on such states.
   let diff := if m = implScores || (!(modelWf ver c) && impl.startsWith "panic") then none else some m
   if !(modelWf ver c) then (diff, [], "") else
-  if impl.startsWith "panic" then (diff, ["C09", "C11"], "score panics on a well-formed object") else
+  if impl.startsWith "panic" then (diff, ["C09", "C11", (if ver == "20" then "C05" else if ver == "40" then "C04" else "C03")], "score panics on a well-formed object") else
   let xs := (f.take n).map parseHexN
   let main := if ver == "40" then 1 else 3
-  let bad11 := (List.range main).filter fun i => (tenthOf (xs.getD i 0) (ver == "20" && i == 2)).isNone
+  -- C11: the double nearest k/10; bit-exact for v3/v4 (the theorems say so: no -0.0 there), up to the sign of zero for v2 (O1)
+  let bad11 := (List.range main).filter fun i =>
+    match tenthOf (xs.getD i 0) (ver == "20" && i == 2) with
+    | none => true
+    | some k => ver != "20" && xs.getD i 0 != (if k < 0 then F64.negTenth k.natAbs else F64.tenth k.natAbs)
   let rej := f.contains "rating-rejects"
   let v11 : List String := if bad11.isEmpty && !rej then [] else ["C11"]
   let val := fun a => modelGet ver c a
